@@ -114,6 +114,9 @@ pub enum TyperError {
     /// Semantic not allowed in this position
     UnexpectedSemantic(SourceLocation),
 
+    /// \[\[rssl::bindless\]\] not allowed in this position
+    UnexpectedBindlessAttribute(SourceLocation),
+
     /// Attribute on a function has an unknown name
     FunctionAttributeUnknown(String, SourceLocation),
 
@@ -759,6 +762,11 @@ impl CompileError for TyperExternalError {
             ),
             TyperError::UnexpectedSemantic(loc) => w.write_message(
                 &|f| write!(f, "semantic is not allowed here"),
+                *loc,
+                Severity::Error,
+            ),
+            TyperError::UnexpectedBindlessAttribute(loc) => w.write_message(
+                &|f| write!(f, "bindless attribute is not allowed here"),
                 *loc,
                 Severity::Error,
             ),
